@@ -171,6 +171,13 @@ func (c *FnCtx) heapHavoc(st *State, name string) string {
 	n := c.fresh(name, arraySort(name))
 	st.heap[name] = n
 	c.touched[name] = true
+	// the nil map stays empty in every heap state
+	switch name[0] {
+	case 'D':
+		st.assume(fmt.Sprintf("(= (select %s 0) ((as const (Array Int Bool)) false))", n))
+	case 'L':
+		st.assume(fmt.Sprintf("(= (select %s 0) 0)", n))
+	}
 	return n
 }
 
@@ -243,6 +250,7 @@ func (c *FnCtx) assumeShapeFacts(st *State, v Val) {
 	case KSlice:
 		st.assume(fmt.Sprintf("(and (<= 0 %s) (<= 0 %s) (<= %s %s) (>= %s 0))", v.Off(), v.Len(), v.Len(), v.Cap(), v.Base()))
 		st.assume(fmt.Sprintf("(=> (= %s 0) (= %s 0))", v.Base(), v.Cap()))
+		st.assume(fmt.Sprintf("(<= (+ %s %s) 9223372036854775807)", v.Off(), v.Cap()))
 	case KStruct, KTuple:
 		for _, f := range v.F {
 			c.assumeShapeFacts(st, f)
@@ -306,6 +314,9 @@ func (c *FnCtx) refTypeID(t types.Type) string {
 	if _, ok := t.(*types.Named); ok && kindOf(t) == KStruct {
 		return c.typeID(t)
 	}
+	if m, ok := t.Underlying().(*types.Map); ok {
+		return c.typeID(m) // maps of different types are different objects
+	}
 	return ""
 }
 
@@ -336,6 +347,9 @@ func (c *FnCtx) assumeAllocated(st *State, v Val) {
 					if tid := c.refTypeID(pt.Elem()); tid != "" {
 						st.assume(or(eq(leaf.S, "0"), eq("(rtype "+leaf.S+")", tid)))
 					}
+				}
+				if _, ok := leaf.T.Underlying().(*types.Map); ok {
+					st.assume(or(eq(leaf.S, "0"), eq("(rtype "+leaf.S+")", c.refTypeID(leaf.T))))
 				}
 			}
 		}
